@@ -110,18 +110,25 @@ def cutAtCp (c : Cfg) (cpH : Option Nat) : List Nat → List Nat
   | [] => []
   | h :: rest => if some (c.tbl.height h) == cpH then [h] else h :: cutAtCp c cpH rest
 
+/-- shape `reorg-truncated-at-checkpoint` (finding F16): the offered branch WAS strictly heavier
+than what it displaced, but the loop stopped at the next checkpoint (`break`) and only the part
+up to it was stored.  `b`/`a`: stored chain before/after the event, `hs`: the message. -/
+def truncatedShape (c : Cfg) (hs b a : List Nat) : Bool :=
+  let k := commonLen b a
+  let removed := b.drop k
+  let added := a.drop k
+  let hs' := hs.dropWhile (fun h => b.contains h)
+  added != [] && isPrefix added hs' && decide (added.length < hs'.length) &&
+    decide (sumWork c.tbl hs' > sumWork c.tbl removed) &&
+    c.cps.any (fun cp => cp.height + 1 == a.length && tipId a == cp.id)
+
 def c02Store (c : Cfg) (ev : Ev) (b a : Dump) : List Fail :=
   let hs := match ev with | .headers _ hs => hs | _ => []
   let k := commonLen b.byh a.byh
   let removed := b.byh.drop k
   let added := a.byh.drop k
   let excused := excusedRollback c hs b.byh a.byh
-  -- the offered branch WAS strictly heavier, but the loop stopped at the next checkpoint
-  -- (`break`) and only the part up to it was stored
-  let hs' := hs.dropWhile (fun h => b.byh.contains h)
-  let truncated := added != [] && isPrefix added hs' && added.length < hs'.length &&
-    decide (sumWork c.tbl hs' > sumWork c.tbl removed) &&
-    c.cps.any (fun cp => cp.height + 1 == a.byh.length && tipId a.byh == cp.id)
+  let truncated := truncatedShape c hs b.byh a.byh
   let lighterShape := if truncated then "reorg-truncated-at-checkpoint" else "reorg-not-heavier"
   let decreasedShape := if truncated then "reorg-truncated-at-checkpoint" else "work-decreased"
   (if removed != [] && !excused then
